@@ -368,6 +368,35 @@ def aperture_setters(rep, r, n):
                           {'kind': kind, 'params': p, 'new': p2})
         rep.case(('apset', kind, which, tuple(sorted(p.items()))), True, kind=f'aperture-setter:{which}')
         rep.probe_only += 1
+        # re-assign `positions` with a different number of positions (scalar <-> list), after shape / isscalar were read
+        try:
+            apc = make_aperture(kind, p)
+            _ = (apc.isscalar, apc.shape, apc.bbox, apc.area)
+            with warnings.catch_warnings():
+                warnings.simplefilter('ignore')
+                _ = apc.do_photometry(img, method='center')
+            two = [(p['cx'], p['cy']), (p['cx'] + 2.5, p['cy'] - 1.5)]
+            apc.positions = two
+            shape_kw = {nm: getattr(apc, nm) for nm in apc._params if nm != 'positions'}
+            ref2 = type(apc)(two, **shape_kw)
+            with warnings.catch_warnings():
+                warnings.simplefilter('ignore')
+                a2 = (apc.isscalar, tuple(apc.shape), len(np.atleast_1d(apc.bbox)), [float(v) for v in np.atleast_1d(apc.do_photometry(img, method='center')[0])])
+                b2 = (ref2.isscalar, tuple(ref2.shape), len(np.atleast_1d(ref2.bbox)), [float(v) for v in np.atleast_1d(ref2.do_photometry(img, method='center')[0])])
+            apc.positions = two[1]
+            ref1 = type(apc)(two[1], **shape_kw)
+            with warnings.catch_warnings():
+                warnings.simplefilter('ignore')
+                a1 = (apc.isscalar, tuple(apc.shape), [float(v) for v in np.atleast_1d(apc.do_photometry(img, method='center')[0])])
+                b1 = (ref1.isscalar, tuple(ref1.shape), [float(v) for v in np.atleast_1d(ref1.do_photometry(img, method='center')[0])])
+        except Exception as e:                                  # noqa: BLE001
+            rep.violation(f'aperture-setter-raises:{kind}:positions-count', f'{kind}: re-assigning positions with another count raised {e!r}', {'kind': kind, 'params': p})
+            continue
+        rep.count('aperture-setter:positions-count')
+        eq = lambda u_, v_: u_[:-1] == v_[:-1] and len(u_[-1]) == len(v_[-1]) and all((x_ == y_) or (math.isnan(x_) and math.isnan(y_)) for x_, y_ in zip(u_[-1], v_[-1]))
+        if not (eq(a2, b2) and eq(a1, b1)):
+            rep.violation(f'aperture-setter-stale:{kind}:positions-count', f'{kind}: after re-assigning positions scalar -> 2 positions -> scalar the aperture reports '
+                          f'{a2} / {a1}, a fresh one {b2} / {b1}', {'kind': kind, 'params': p})
 
 
 def ellipse_calls(rep, r):
